@@ -371,11 +371,19 @@ class ObjView(AppView):
             names = [x for x in r.get('objs', '').split(',') if x]
             newl = [x for x in r.get('newlabels', '').split(',')] if r.get('newlabels') else []
             unknown = sorted([n for n in names if int(n[1:]) >= self.nnames], key=lambda n: int(n[1:]))
+            if 'ff3f' in newl:
+                self.ambiguous = True       # an object whose label cannot be read through this session (F23): names cannot be aligned
             for n, l in zip(unknown, newl):
                 self.objs[n] = l
             for n in names:
                 self.note_name(n)
-            raws = [int(x) for x in r.get('raws', '').split(',') if x]
+            # raw handle values of the objects returned: a later '#<raw>' argument names the same object
+            for pr in [x for x in r.get('pairs', '').split(',') if ':' in x]:
+                nm, rawv = pr.split(':', 1)
+                try:
+                    self.raw[int(rawv)] = nm
+                except ValueError:
+                    pass
 
 
 def monitor_c01(trace):
